@@ -40,6 +40,9 @@ pub fn configs(tier: Tier) -> Vec<Box<dyn Config>> {
     let sse2 = super::width() == 16;
     let q = tier == Tier::Quick;
     let mut v: Vec<Box<dyn Config>> = Vec::new();
+    // closures handed to entry methods (and_modify, or_insert_with*, and_replace_entry_with, replace_entry_with) that panic:
+    // afterwards the map must still agree with plain operations (single-fault enumeration, details: C04)
+    v.push(super::c04::mk::<TKey, TVal>(Plan::Zero, if q { 4 } else { 6 }, vec![vec![]], None, tier, false, "-faults"));
     // entry-style insertion into deep multi-home layouts at full load (layout grammar, RawTable::insert path)
     v.push(Box::new(super::rehash::RehashGrammar { tier }));
     // probe windows that start at the last bucket and wrap (tables smaller than a group rely on the insert-slot fix-up)
